@@ -220,4 +220,26 @@ def c04_r9(ctx):
                             n += 1
                             ctx.fail(key(fi, f"growing list {L}"), f"`{L}` starts as a copy of `{base}` and is extended inside a loop that iterates `{it}` itself: what is added to `{L}` is never traversed "
                                      "(only the first level of a transitive walk is expanded)", fi.loc(c))
+    # --- a neighbour that was already visited must be skipped, not end the iteration over the neighbours
+    for fi in repo.all_functions():
+        if fi.module.short.startswith("client_generators.dependencies"):
+            continue
+        for lp in walk_no_nested(fi.node):
+            if not isinstance(lp, ast.For):
+                continue
+            tv = {x.id for x in ast.walk(lp.target) if isinstance(x, ast.Name)}
+            for st in lp.body:
+                if isinstance(st, ast.If) and not st.orelse and len(st.body) == 1 and isinstance(st.body[0], (ast.Break, ast.Return)):
+                    t = st.test
+                    if isinstance(t, ast.Compare) and len(t.ops) == 1 and isinstance(t.ops[0], ast.In) and isinstance(t.left, ast.Name) and t.left.id in tv \
+                            and isinstance(t.comparators[0], ast.Name) and t.comparators[0].id in ("visited", "seen", "done", "processed", "visited_names", "seen_names"):
+                        later = [x for x in lp.body[lp.body.index(st) + 1:]]
+                        marks = any(isinstance(c, ast.Call) and isinstance(c.func, ast.Attribute) and c.func.attr in ("add", "append") and c.args and isinstance(allargs(c)[0], ast.Name)
+                                    and allargs(c)[0].id in tv for x in later for c in ast.walk(x)) or \
+                            any(isinstance(a_, ast.Assign) and isinstance(a_.value, ast.BinOp) and any(isinstance(z, ast.Name) and z.id in tv for z in ast.walk(a_.value)) for x in later for a_ in ast.walk(x))
+                        if marks:
+                            n += 1
+                            ctx.fail(key(fi, f"visited neighbour ends the loop ({norm(t)})"),
+                                     f"`if {norm(t)}: {'break' if isinstance(st.body[0], ast.Break) else 'return'}` inside the loop over `{norm(lp.iter)}`: an element that was already visited stops the iteration, "
+                                     "so the elements after it are never visited (a shared or self-referential dependency hides its later siblings); it must be skipped (`continue`)", fi.loc(st))
     ctx.ok(f"worklist discipline checked on {n} traversal loops")
